@@ -122,7 +122,7 @@ def flatten(res, out):
 def observe(axml, raw, entries):
     a = axml.ARSCParser(raw)
     rids = sorted({e["pid"] << 24 | e["tid"] << 16 | e["idx"] for e in entries})
-    obs = dict(stored=[], keys=[], packages=sorted(a.get_packages_names()), types=[], locales=[], resolved=[])
+    obs = dict(stored=[], keys=[], packages=sorted(a.get_packages_names()), types=[], locales=[], resolved=[], app=[])
     for rid in rids:
         for cfg, ate in a.get_res_configs(rid):
             k, v = ate_value(ate)
@@ -155,6 +155,54 @@ def observe(axml, raw, entries):
     finally:
         sys.setrecursionlimit(old)
     return obs
+
+
+def observe_app(apkmod, raw_arsc, label_id, icon_id):
+    """APK.get_app_name / get_app_icon on an archive whose manifest names `label_id` / `icon_id`: -> [[accessor, outcome]]
+    (outcome: ok | recursion-depth-exceeded | timeout | <exception>)"""
+    import io
+    import signal
+    import zipfile
+    from .axmlgen import Axml
+    from .props import c31
+    m = dict(pkg=["com", "a"], vcode=1, vname="1", perms=[], features=[], libraries=[], acts=[], svcs=[], rcvs=[], prvs=[], minsdk=21, target=0)
+    doc = c31.manifest_doc(m)
+    app = next(c for c in doc["children"] if c["tag"] == "application")
+    app["attrs"] = [dict(name="label", ns=c31.U, resid=0x01010001, type=1, data=label_id), dict(name="icon", ns=c31.U, resid=0x01010002, type=1, data=icon_id)]
+    bio = io.BytesIO()
+    with zipfile.ZipFile(bio, "w", zipfile.ZIP_DEFLATED) as z:
+        z.writestr("AndroidManifest.xml", Axml(doc, [("android", c31.U)], False).build())
+        z.writestr("resources.arsc", raw_arsc)
+        z.writestr("classes.dex", b"dex\n035\0" + b"\0" * 104)
+    a = apkmod.APK(bio.getvalue(), raw=True)
+    out = []
+
+    class Timeout(Exception):
+        pass
+
+    def alarm(*_):
+        raise Timeout()
+    old_rec = sys.getrecursionlimit()
+    sys.setrecursionlimit(600)
+    old_h = signal.signal(signal.SIGALRM, alarm)
+    try:
+        for name, fn in (("get_app_name", a.get_app_name), ("get_app_icon", a.get_app_icon)):
+            signal.alarm(20)
+            try:
+                fn()
+                out.append([name, "ok"])
+            except RecursionError:
+                out.append([name, "recursion-depth-exceeded"])
+            except Timeout:
+                out.append([name, "timeout"])
+            except Exception as e:
+                out.append([name, "ok"])          # an error is an answer (termination is the property); its kind is not judged here
+            finally:
+                signal.alarm(0)
+    finally:
+        signal.signal(signal.SIGALRM, old_h)
+        sys.setrecursionlimit(old_rec)
+    return out
 
 
 def record(entries, obs):
@@ -255,7 +303,11 @@ def run_property(chk, pid):
                     kind, val = "bag", [["str", codes("b%d" % i)], ["ref", base + j]]
                 entries.append(dict(pkg="com.a", pid=0x7F, type="array", tid=1, idx=i, cfg="|0", kind=kind, val=val, key="k%d" % i))
             raw = realise(entries)
-            recs.append(record(entries, observe(axml, raw, entries)))
+            ob = observe(axml, raw, entries)
+            if len(recs) % 8 == 0:               # the same table behind an APK: application label = id 0, icon = id 1
+                from androguard.core import apk as apkmod
+                ob["app"] = observe_app(apkmod, raw, base, base + 1)
+            recs.append(record(entries, ob))
             meta.append(("graph", entries))
         # the same ids stored in two configurations, each with its own outgoing reference (cycles that fan out per configuration)
         n2 = 3
